@@ -163,3 +163,20 @@ def run(ctx):
                     if isinstance(p, tuple) and p[0] == "call" and any(p[1].endswith(v) or v in p[1] for v in VARLEN_ENCODERS):
                         bad3.append("variable-length integer encoding used directly as an output field: " + fmt_n(p)[:160])
                 ctx.add("R05.3", f"C05/fixw/{key}", not bad3, "; ".join(bad3), site_of(wrapf) if wrapf else None)
+
+# ---- R05.7 (shared with C08 R08.1b / R08.8): the undo side hands the recovered bytes to HasKey::decode, which must parse exactly
+# what HasKey::encode produced: byte-preserving decoders for v2–v4, and for v1 the DER parser applied to the unmodified bytes.
+_run_c05 = run
+def run(ctx):
+    _run_c05(ctx)
+    import c08
+    class Scratch:
+        def __init__(s): s.findings = []; s.world = ctx.world; s.crates = ctx.crates; s.analysed = {"functions": 0, "paths": 0, "call_sites": 0}; s.notes = []; s.tier = ctx.tier; s.facts_dir = ctx.facts_dir
+        def add(s, rule, k, ok, detail="", site=None, facts=None): s.findings.append((rule, k, ok, detail, site))
+        def sample(s, x): pass
+    sc = Scratch()
+    c08.run(sc)
+    for (rule, k, ok, detail, site) in sc.findings:
+        if rule in ("R08.1b", "R08.8") and ("/Local" in k or "/Secret" in k or "/PkeSecret" in k):
+            ctx.add("R05.7", "C05/decode-of-encoded/" + k.split("/", 1)[-1], ok, detail, site)
+FLOORS["R05.7"] = 12
